@@ -331,31 +331,41 @@ Proof.
   - inversion H; subst. left. auto.
 Qed.
 
-Lemma empty_file_target_tidy : forall s,
-  forallb tidy (p_comps (path_of s)) = true -> p_trail (path_of s) = false -> empty_file_target s = path_of s.
+(* the path mutateEmptyFile works on: the declared path without its trailing
+   slash — because the source cleans it (fix 10a6051, read by goextract), or because
+   there is none *)
+Lemma empty_file_target_eq : forall s,
+  forallb tidy (p_comps (path_of s)) = true -> (empty_file_path_cleaned = true \/ p_trail (path_of s) = false) ->
+  empty_file_target s = mkPath (p_abs (path_of s)) (p_comps (path_of s)) false.
 Proof.
-  intros s Ht Htr. unfold empty_file_target. destruct empty_file_path_cleaned; [|reflexivity].
-  unfold pclean. rewrite (clean_tidy _ _ Ht). destruct (path_of s) as [a c t]. cbn in *. subst t. reflexivity.
+  intros s Ht Hc. unfold empty_file_target. destruct empty_file_path_cleaned.
+  - unfold pclean. rewrite (clean_tidy _ _ Ht). reflexivity.
+  - destruct Hc as [Hc|Hc]; [discriminate|]. destruct (path_of s) as [a c t]. cbn in *. subst t. reflexivity.
 Qed.
 
 Theorem empty_file_path : forall f m f',
   m_type m = "empty-file" -> mutate_one maxl f m = FOk f' ->
-  let p := path_of (m_path m) in
-  forallb tidy (p_comps p) = true -> p_trail p = false ->
+  let p0 := path_of (m_path m) in
+  let p := mkPath (p_abs p0) (p_comps p0) false in
+  forallb tidy (p_comps p0) = true -> (empty_file_path_cleaned = true \/ p_trail p0 = false) ->
   (forall l, direct maxl f' p = FOk l -> nkind l <> KSym) ->
-  exists t n, gn maxl f' p = FOk t /\ direct_idx maxl f' p = FOk t /\ get f' t = Some n /\
+  exists t n, gn maxl f' p0 = FOk t /\ direct_idx maxl f' p = FOk t /\ get f' t = Some n /\
     ndata n = "" /\ edata n = nback n /\ (tarfs_trunc_detaches = true -> edata n = "") /\
     nperm n = m_perm m /\ nuid n = m_uid m /\ ngid n = m_gid m /\
     nkind n <> KDir /\ nkind n <> KSym /\
     (List.length f <= t -> nkind n = KFile) /\
     (forall n0, get f t = Some n0 -> nkind n = nkind n0).
 Proof.
-  intros f m f' Hty H p Htidy Htrail Hnosym. unfold mutate_one in H.
+  intros f m f' Hty H p0 p Htidy0 Hclean Hnosym. unfold mutate_one in H.
+  assert (Htidy : forallb tidy (p_comps p) = true) by exact Htidy0.
+  assert (Htrail : p_trail p = false) by reflexivity.
   assert (Hfn : assoc (m_type m) path_mutators = Some "mutateEmptyFile") by (rewrite Hty; reflexivity).
   rewrite Hfn in H. change (mutator_named maxl "mutateEmptyFile") with (Some (mutate_empty_file maxl)) in H. cbv iota beta in H.
   apply fbind_ok_r in H. destruct H as (f1 & Hpm & H). rewrite Hty in H. cbn [String.eqb Ascii.eqb Bool.eqb] in H.
-  unfold mutate_permissions in H. fold p in H.
-  unfold mutate_empty_file in Hpm. rewrite (empty_file_target_tidy _ Htidy Htrail) in Hpm. fold p in Hpm.
+  unfold mutate_permissions in H. fold p0 in H.
+  (* Chmod/Chown resolve the declared path by its components: a trailing slash does not matter *)
+  change (perms_direct maxl f1 p0 (m_perm m) (m_uid m) (m_gid m)) with (perms_direct maxl f1 p (m_perm m) (m_uid m) (m_gid m)) in H.
+  unfold mutate_empty_file in Hpm. rewrite (empty_file_target_eq _ Htidy0 Hclean) in Hpm. fold p0 in Hpm. fold p in Hpm.
   apply fbind_ok_r in Hpm. destruct Hpm as (f0 & Hmk & Hcw).
   unfold ensure_parent in Hmk. destruct (mkdirall_spec _ _ _ _ _ Hmk) as (Ext0 & Len0 & Fresh0).
   unfold create_write in Hcw. apply fbind_ok_r in Hcw. destruct Hcw as ([f2 o] & Ho & Hcw). inversion Hcw; subst f1. clear Hcw.
@@ -545,30 +555,52 @@ Qed.
 
 End Exact.
 
-(* finding C13-F6 on the model: mutateEmptyFile hands mut.Path as written to
-   filepath.Dir / filepath.Base (inside MkdirAll's caller and Create); with a
-   trailing slash Dir keeps every component and Base repeats the last one, so
-   {type: empty-file, path: /x/y/} makes /x/y a DIRECTORY — which then receives
-   the declared mode and owner — and puts the file at /x/y/y with Create's own
-   mode, owned by root.  (Stated under the hypothesis that the source does not
-   clean the path, which goextract reads from mutateEmptyFile on every run.) *)
-Lemma empty_file_trailing_slash_refuted :
-  empty_file_path_cleaned = false ->
+(* was finding C13-F6, fixed by 10a6051 (target := filepath.Clean(mut.Path)):
+   {type: empty-file, path: /x/y/} creates the FILE /x/y with the declared mode
+   and owner; nothing is nested in it; the validator is satisfied *)
+Lemma empty_file_trailing_slash_fixed :
   exists m f', m_type m = "empty-file" /\ m_path m = "/x/y/" /\ p_trail (path_of (m_path m)) = true /\
     mutate_paths 40 (empty_fs 493) [m] = FOk f' /\
+    (exists n, stat 40 f' (path_of (m_path m)) = FOk n /\ nkind n = KFile /\ edata n = "" /\
+               nperm n = m_perm m /\ nuid n = m_uid m /\ ngid n = m_gid m) /\
+    stat 40 f' (path_of "/x/y/y") = FNotExist /\
+    realised_tags m (mkStep None (match stat 40 f' (path_of (m_path m)) with FOk n => Some (sinfo_of n) | _ => None end) 0 None []) = [].
+Proof.
+  exists (mkMut "empty-file" "/x/y/" "" 416 5 6 false). eexists.
+  split; [reflexivity|]. split; [reflexivity|]. split; [reflexivity|]. split; [vm_compute; reflexivity|].
+  split; [eexists; split; [vm_compute; reflexivity|]; repeat split|]. split; vm_compute; reflexivity.
+Qed.
+
+(* HYPOTHETICAL shape (the source before fix 10a6051, not today's): the declared
+   path handed as written to filepath.Dir / filepath.Base.  With a trailing slash
+   Dir keeps every component and Base repeats the last one: /x/y becomes a
+   DIRECTORY carrying the declared mode and owner and the file is /x/y/y with
+   Create's own mode, owned by root; the validator's narrow tag fires. *)
+Definition mutate_empty_file_uncleaned (maxl : nat) (f : fs) (m : mutation) : fres fs :=
+  let p := path_of (m_path m) in
+  fdo f1 <- ensure_parent maxl f p; fdo f2 <- create_write maxl f1 p ""; mutate_permissions maxl f2 m.
+Lemma hypothetical_uncleaned_empty_file_nests :
+  exists m f', m_type m = "empty-file" /\ m_path m = "/x/y/" /\
+    mutate_empty_file_uncleaned 40 (empty_fs 493) m = FOk f' /\
     (exists n, stat 40 f' (path_of (m_path m)) = FOk n /\ nkind n = KDir /\ nperm n = m_perm m /\ nuid n = m_uid m) /\
     (exists n, stat 40 f' (path_of "/x/y/y") = FOk n /\ nkind n = KFile /\ nperm n = create_perm /\ nuid n = 0%N) /\
     realised_tags m (mkStep None (match stat 40 f' (path_of (m_path m)) with FOk n => Some (sinfo_of n) | _ => None end) 0 None [])
       = ["viol:empty-file-trailing-slash-nests-file"].
 Proof.
-  intro E. exists (mkMut "empty-file" "/x/y/" "" 416 5 6 false). eexists.
-  split; [reflexivity|]. split; [reflexivity|]. split; [reflexivity|]. split.
-  - cbn [mutate_paths].
-    change (mutate_one 40 (empty_fs 493) (mkMut "empty-file" "/x/y/" "" 416 5 6 false))
-      with (fdo f1 <- mutate_empty_file 40 (empty_fs 493) (mkMut "empty-file" "/x/y/" "" 416 5 6 false);
-            mutate_permissions 40 f1 (mkMut "empty-file" "/x/y/" "" 416 5 6 false)).
-    unfold mutate_empty_file, empty_file_target. rewrite E. vm_compute. reflexivity.
-  - split; [eexists; split; [vm_compute; reflexivity|]; repeat split|].
-    split; [eexists; split; [vm_compute; reflexivity|]; repeat split|].
-    vm_compute. reflexivity.
+  exists (mkMut "empty-file" "/x/y/" "" 416 5 6 false). eexists.
+  split; [reflexivity|]. split; [reflexivity|]. split; [vm_compute; reflexivity|].
+  split; [eexists; split; [vm_compute; reflexivity|]; repeat split|].
+  split; [eexists; split; [vm_compute; reflexivity|]; repeat split|].
+  vm_compute. reflexivity.
+Qed.
+(* the hypothetical shape IS the model whenever the source does not clean the path *)
+Lemma uncleaned_is_model : empty_file_path_cleaned = false -> forall maxl f m, m_type m = "empty-file" ->
+  mutate_one maxl f m = mutate_empty_file_uncleaned maxl f m.
+Proof.
+  intros E maxl f m Hty. unfold mutate_one.
+  assert (Hfn : assoc (m_type m) path_mutators = Some "mutateEmptyFile") by (rewrite Hty; reflexivity).
+  rewrite Hfn. change (mutator_named maxl "mutateEmptyFile") with (Some (mutate_empty_file maxl)). cbv iota beta.
+  rewrite Hty. cbn [String.eqb Ascii.eqb Bool.eqb].
+  unfold mutate_empty_file, mutate_empty_file_uncleaned, empty_file_target. rewrite E.
+  destruct (ensure_parent maxl f (path_of (m_path m))); reflexivity.
 Qed.
